@@ -125,7 +125,10 @@ func newPackage(program *loader.Program, pkgInfo *loader.PackageInfo, plugins []
 	for _, fileInfo := range fileInfos {
 
 		changed := false
-		calls := append(fileInfo.undefined, fileInfo.derived...)
+		// Calls are handled in source order, whether or not they already resolve into a previously
+		// generated file, so that the order of the generated functions does not depend on that file.
+		calls := append(append([]*call{}, fileInfo.undefined...), fileInfo.derived...)
+		sort.SliceStable(calls, func(i, j int) bool { return calls[i].Expr.Pos() < calls[j].Expr.Pos() })
 		for _, call := range calls {
 			// log.Printf("call: %v", call.Name)
 			if call.HasUndefined() {
